@@ -93,6 +93,10 @@ UNIT = dict(
     'msq.T.lifecycle': dict(deciding=True, text='C07: placement-new only into raw storage, ~T and move only on a constructed T: no T destroyed twice or constructed over a live one'),
     'msq.node.live_deref': dict(deciding=True, text='every node dereferenced is allocated and not deleted'),
   },
+  replays={'msq.push.appends': dict(src='replay_msq.cpp', fixed={'in_op': 1}), 'msq.push.frame': dict(src='replay_msq.cpp', fixed={'in_op': 1}),
+           'msq.pop.takes_first': dict(src='replay_msq.cpp', fixed={'in_op': 2}), 'msq.pop.helps_tail': dict(src='replay_msq.cpp', fixed={'in_op': 3}),
+           'msq.pop.owns': dict(src='replay_msq.cpp', fixed={'in_op': 2}), 'msq.pop.frame': dict(src='replay_msq.cpp', fixed={'in_op': 3}),
+           'msq.dtor.owns': dict(src='replay_msq.cpp', fixed={'in_op': 4}), 'msq.T.lifecycle': dict(src='replay_msq.cpp', fixed={'in_op': 4})},
   loop_obligation={'PUSH': 'msq.push.commit', 'POP': 'msq.pop.commit'},
-  canaries=[],
+  canaries=['ctor.reached', 'dtor.len3', 'dtor.only_dummy', 'dtor.unlisted_node', 'pop.empty', 'pop.value', 'pop_node.empty', 'pop_node.helped_tail', 'pop_node.plain', 'pop_node_int.empty', 'pop_node_int.value', 'push.helped_tail', 'push.len3', 'push.plain', 'push_int.linked'],
 )
